@@ -1,11 +1,14 @@
-\* quick-tier bounds; p_c10.py writes the thorough-tier shapes next to its outputs
+\* One shard, per-branch actions, deadlock checking on (a branch of a stage block that has no
+\* named action would strand a behaviour before Done).  p_c10.py writes the sharded
+\* configurations of both tiers (MCPlainSpec for the large shapes) next to its outputs.
 CONSTANTS
   NCmin = 0
   NCmax = 2
   NQmin = 0
-  NQmax = 3
+  NQmax = 2
+  Shard = 0
+  NShards = 1
 SPECIFICATION MCSpec
 INVARIANT MCInv
 PROPERTY Progress
 PROPERTY ConfigFrozen
-CHECK_DEADLOCK FALSE
